@@ -306,6 +306,49 @@ Qed.
 Lemma freachA_freach s s' : freachA s s' -> freach s s'.
 Proof. induction 1; [constructor|econstructor; eauto]. Qed.
 
+(** The same with the OTHER programs free to fault (C13: a failure elsewhere does not cost this piece). *)
+Inductive mreachA (i : nat) : sys -> sys -> Prop :=
+| ma_refl s : avail (s_fs s) -> mreachA i s s
+| ma_own s s1 s2 : avail (s_fs s) -> fstep s s1 -> mreachA i s1 s2 -> mreachA i s s2
+| ma_other s s1 s2 : avail (s_fs s) -> ostep i s s1 -> mreachA i s1 s2 -> mreachA i s s2.
+
+Lemma mreachA_prunA i : forall s s', mreachA i s s' -> alias_free content es (s_fs s) -> Forall (pgood content es) (s_pool s) ->
+  forall pg o, nth_error (s_pool s) i = Some pg -> nth_error (s_pool s') i = Some (Ret o) -> prunA (s_fs s) pg (s_fs s') o.
+Proof.
+  induction 1 as [s Hv|s s1 s2 Hv Hst Hr IH|s s1 s2 Hv [Hss Hsame] Hr IH]; intros Ha Hp pg o Hn Hn'.
+  - rewrite Hn in Hn'. inversion Hn'; subst. constructor; [apply WI_refl|exact Hv].
+  - destruct (fstep_WI content es Hfun s s1 Hst Ha Hp) as (W & A1 & P1).
+    destruct Hst as [f pool j p off len k Hj|f pool j op k f1 ok Hj Happ|f pool j id k Hj|f pool j id k Hj]; cbn [s_fs s_pool] in *.
+    + destruct (Nat.eq_dec i j) as [->|Hij].
+      * rewrite Hj in Hn. inversion Hn; subst. econstructor; [apply WI_refl|exact Hv|]. apply (IH A1 P1); [|exact Hn']. now apply (nth_set_nth_eq pool j _ (Read p off len k)).
+      * apply (prunA_env _ f); [exact W|]. apply (IH A1 P1); [|exact Hn']. now rewrite nth_set_nth_neq.
+    + destruct (Nat.eq_dec i j) as [->|Hij].
+      * rewrite Hj in Hn. inversion Hn; subst. econstructor; [apply WI_refl|exact Hv|exact Happ|]. apply (IH A1 P1); [|exact Hn']. now apply (nth_set_nth_eq pool j _ (Mut op k)).
+      * apply (prunA_env _ f1); [exact W|]. apply (IH A1 P1); [|exact Hn']. now rewrite nth_set_nth_neq.
+    + destruct (Nat.eq_dec i j) as [->|Hij].
+      * rewrite Hj in Hn. inversion Hn; subst. constructor. apply (IH A1 P1); [|exact Hn']. now apply (nth_set_nth_eq pool j _ (Lock id k)).
+      * apply (IH A1 P1); [|exact Hn']. now rewrite nth_set_nth_neq.
+    + destruct (Nat.eq_dec i j) as [->|Hij].
+      * rewrite Hj in Hn. inversion Hn; subst. constructor. apply (IH A1 P1); [|exact Hn']. now apply (nth_set_nth_eq pool j _ (Unlock id k)).
+      * apply (IH A1 P1); [|exact Hn']. now rewrite nth_set_nth_neq.
+  - destruct (sstep_WI content es Hfun s s1 Hss Ha Hp) as (W & A1 & P1).
+    apply (prunA_env _ (s_fs s1)); [exact W|]. apply (IH A1 P1); [|exact Hn']. now rewrite Hsame.
+Qed.
+
+Lemma mreachA_mreach i s s' : mreachA i s s' -> mreach i s s'.
+Proof. induction 1; [constructor|eapply mr_own; eauto|eapply mr_other; eauto]. Qed.
+
+Theorem available_means_recovered_despite_faults s s' i o :
+  alias_free content es (s_fs s) -> Forall (pgood content es) (s_pool s) ->
+  nth_error (s_pool s) i = Some (solve_prog H pc) -> mreachA i s s' -> nth_error (s_pool s') i = Some (Ret o) ->
+  o = Success /\ forall sg, In sg (w_segs pc) -> e_pad (ps_entry sg) = false -> holds_seg content (s_fs s') sg.
+Proof.
+  intros Ha Hp Hn Hr Hn'.
+  pose proof (mreachA_prunA i s s' Hr Ha Hp _ _ Hn Hn') as Hrun.
+  assert (Ho : o = Success) by exact (solve_succeeds _ _ _ Hrun). subst o. split; [reflexivity|].
+  exact (success_means_in_place_despite_faults H content es Hfun s s' i pc Ha Hp Hwf Hall Hcr Hn (mreachA_mreach i s s' Hr) Hn').
+Qed.
+
 (** C02 for the whole system: in a fault-free run all of whose states keep the piece available
     and unobstructed, when the piece's evaluation has returned, it has returned [Success] and every
     non-padding segment of the piece is in place in the export tree. *)
